@@ -1641,8 +1641,8 @@ def rule_H2(rep, repo):
         h2.check(ok, "dispatch|" + g.name, short_loc(g.loc), "%s: var==const comparisons use the (var, const) map, all others the structural map" % g.name)
 
 
-def rule_K2(rep, repo):
-    k2 = rep.rule("C01.K2", "TABLE", "fractional right-hand sides of comparisons with an integer body are rounded in the direction that keeps the integer solutions; de-normalised comparisons are negated with the sense reversed", floor=12)
+def rule_K2(rep, repo, rid="C01.K2"):
+    k2 = rep.rule(rid, "TABLE", "fractional right-hand sides of comparisons with an integer body are rounded in the direction that keeps the integer solutions; de-normalised comparisons are negated with the sense reversed", floor=12)
     d = export(U, fn=[r"mp::ConstraintPreprocessors::PreprocessConstraint"], repo=repo)
     F = Facts([d])
     funcs = [f for f in F.funcs if not f.is_dependent() and f.cfg is not None]
